@@ -161,13 +161,25 @@ def run(ctx):
     else:
         grace = table_value("grace_ns") or 60 * 10 ** 9
         args = [hb, "-seed", str(ctx.seed), "-tier", ctx.tier, "-out", ctx.work, "-grace-ns", str(grace)]
+        skip_harness = False
         if ctx.replay:
             rp = json.load(open(ctx.replay))
-            inner = os.path.join(ctx.work, "replay_in.json")
-            json.dump(rp.get("replay", rp), open(inner, "w"))
-            args += ["-replay", inner]
-        rc, out = common.sh(args, timeout=1500)
-        if rc != 0:
+            inner_obj = rp.get("replay", rp)
+            if "params" in inner_obj:
+                inner = os.path.join(ctx.work, "replay_in.json")
+                json.dump(inner_obj, open(inner, "w"))
+                args += ["-replay", inner]
+            elif "unchecked" in inner_obj:
+                # a replay that names obligations / theorems / the translator: re-check exactly those (done above)
+                skip_harness = True
+            # any other replay without parameters (e.g. descriptors left open) re-runs the whole sweep
+        if skip_harness:
+            rc, out = 0, ""
+        else:
+            rc, out = common.sh(args, timeout=1500)
+        if skip_harness:
+            pass
+        elif rc != 0:
             ob_failed.append("harness failed: " + out[-800:])
         else:
             meta = json.load(open(os.path.join(ctx.work, "meta.json")))
